@@ -241,7 +241,8 @@ pub trait ElementMut: Element + NodeMut {
 
     fn remove_attribute_node(&self, old_attr: XmlAttr) -> error::Result<XmlAttr> {
         if !same_document(self.owner_document(), old_attr.owner_document()) {
-            return Err(error::DomException::WrongDocumentErr)?;
+            // An attribute of another document is not an attribute of this element.
+            return Err(error::DomException::NotFoundErr)?;
         }
 
         match self.get_attribute_node(old_attr.name().as_str()) {
@@ -1216,7 +1217,8 @@ impl NodeMut for XmlDocument {
 
         let value = if let Some(r) = ref_child {
             if !same_document(Some(self.clone()), r.owner_document()) {
-                return Err(error::DomException::WrongDocumentErr)?;
+                // A node of another document is not a child of this node.
+                return Err(error::DomException::NotFoundErr)?;
             }
 
             match self
@@ -1240,7 +1242,8 @@ impl NodeMut for XmlDocument {
 
     fn remove_child(&self, old_child: &XmlNode) -> error::Result<XmlNode> {
         if !same_document(Some(self.clone()), old_child.owner_document()) {
-            return Err(error::DomException::WrongDocumentErr)?;
+            // A node of another document is not a child of this node.
+            return Err(error::DomException::NotFoundErr)?;
         }
 
         match self.document.borrow().delete(old_child.id()) {
@@ -1655,7 +1658,8 @@ impl NodeMut for XmlAttr {
 
         let value = if let Some(r) = ref_child {
             if !same_document(self.owner_document(), r.owner_document()) {
-                return Err(error::DomException::WrongDocumentErr)?;
+                // A node of another document is not a child of this node.
+                return Err(error::DomException::NotFoundErr)?;
             }
 
             match self
@@ -1679,7 +1683,8 @@ impl NodeMut for XmlAttr {
 
     fn remove_child(&self, old_child: &XmlNode) -> error::Result<XmlNode> {
         if !same_document(self.owner_document(), old_child.owner_document()) {
-            return Err(error::DomException::WrongDocumentErr)?;
+            // A node of another document is not a child of this node.
+            return Err(error::DomException::NotFoundErr)?;
         }
 
         match self.attribute.borrow().delete(old_child.id()) {
@@ -1992,7 +1997,8 @@ impl NodeMut for XmlElement {
 
         let value = if let Some(r) = ref_child {
             if !same_document(self.owner_document(), r.owner_document()) {
-                return Err(error::DomException::WrongDocumentErr)?;
+                // A node of another document is not a child of this node.
+                return Err(error::DomException::NotFoundErr)?;
             }
 
             match self
@@ -2016,7 +2022,8 @@ impl NodeMut for XmlElement {
 
     fn remove_child(&self, old_child: &XmlNode) -> error::Result<XmlNode> {
         if !same_document(self.owner_document(), old_child.owner_document()) {
-            return Err(error::DomException::WrongDocumentErr)?;
+            // A node of another document is not a child of this node.
+            return Err(error::DomException::NotFoundErr)?;
         }
 
         if let XmlNode::ExpandedText(text) = old_child {
